@@ -481,7 +481,7 @@ func c09RunWorker(p *c09Plan, sa flows.SessionAssets, env envs.Environment, w in
 	}()
 	client := &http.Client{Transport: dispatchTransport{}}
 	eng := engine.NewBuilder().
-		WithWebhookServiceFactory(webhooks.NewServiceFactory(client, (*httpx.RetryConfig)(nil), nil, map[string]string{"User-Agent": "goflow-sim"}, 10000)).
+		WithWebhookServiceFactory(webhooks.NewServiceFactory(client, (*httpx.RetryConfig)(nil), nil, map[string]string{"User-Agent": "goflow-sim", "X-Mailroom-Mode": "normal", "Accept-Language": "en"}, 10000)).
 		WithMaxStepsPerSprint(12). // keeps looping flows (and the volume of outputs to compare) small
 		Build()
 	cs := p.Sc.Contacts[w%len(p.Sc.Contacts)]
